@@ -1,4 +1,4 @@
-import GoitModel.Config
+import GoitModel.Effects
 
 /-! Line protocol of the model driver (function-level operations).
     One operation per input line, one canonical answer line per operation. Byte strings are
@@ -166,6 +166,26 @@ def step (s : St) (line : String) : St × String :=
     let ls := Ignore.lines (if f == "none" then none else some (unhex f))
     let t := Ignore.target (unhex p) (kind == "file" || kind == "dir") (kind == "dir") (kind == "tracked")
     (s, if ls.all Ignore.lineOK then toString (Ignore.matchesTarget ls t) else "unsupported")
+  | "eff.shape" :: cmd :: rest =>
+    let n (i : Nat) : Nat := natOf (rest.getD i "0")
+    let objs (k : Nat) : List (Bytes × Bytes) := (List.range k).map fun i => ([UInt8.ofNat i], [])
+    let es : Option (List Eff.E) :=
+      match cmd with
+      | "commit" => some (Eff.commit (objs (n 0)) [98] [1] [])
+      | "add1" => some (if n 0 == 1 then Eff.addFile [1] [] [] else Eff.setIndex [])
+      | "branch" => some (Eff.branchCreate [110] [1] [])
+      | "switch" => some (Eff.switchTo [98] [])
+      | "switch-c" => some (Eff.switchCreate [110] [1] [] [])
+      | "update-ref" => some (Eff.updateRef [98] [1])
+      | "reset" =>
+        let files := (List.range (n 1)).map fun i => ([UInt8.ofNat i], ([] : Bytes))
+        some (Eff.reset [98] [1] [] (if n 0 == 0 then none else some []) (if n 0 == 2 then files else []))
+      | "rename" =>
+        some (Eff.branchRename [111] [110] [1]
+          [.append .logHead [], .append .logHead [], .remove (.logBranch [111]), .append (.logBranch [110]) [], .append (.logBranch [110]) []])
+      | "config" => some (Eff.replace "config" .config [])
+      | _ => none
+    (s, match es with | some es => " ".intercalate (Eff.shape es) | none => "unsupported")
   | _ => (s, "bad-op")
 
 partial def loop (h : IO.FS.Stream) (out : IO.FS.Stream) (s : St) : IO Unit := do
